@@ -18,7 +18,7 @@ import concurrent.futures as cf
 import vlib
 
 PID = 'C18'
-ALL_BODIES = ['ENCA', 'ENCB', 'ENCC', 'ENCD', 'ENCM', 'ENCT', 'ENCS', 'DECA', 'DECB', 'DECF', 'DECH', 'DECL', 'DECR', 'VFA', 'VFB', 'VFF', 'VFC', 'VFL', 'VFR']
+ALL_BODIES = ['ENCA', 'ENCB', 'ENCC', 'ENCD', 'ENCM', 'ENCT', 'ENCS', 'DECA', 'DECB', 'DECF', 'DECH', 'DECL', 'DECR', 'VFA', 'VFB', 'VFF', 'VFC', 'VFL', 'VFR', 'VLAP', 'VLAQ']
 CORE = ['ENCA', 'ENCB', 'DECA', 'DECB', 'DECF', 'VFA', 'VFB']
 BODY_DOC = {
     'ENCA': 'encoder stereo 44.1k VBR q0.4, 3x1024 samples', 'ENCB': 'encoder mono 8k, setup_managed+ctl+setup_init (bitrate managed)',
@@ -31,11 +31,14 @@ BODY_DOC = {
     'ENCM': 'encoder stereo 44.1k managed with a hard MINIMUM (96 kbit/s, 8000-bit reservoir via RATEMANAGE2_SET) on a tone followed by near silence (1e-5 sine): packets are zero-padded up to the floor',
     'ENCT': 'very short encodes: {1,2} channels x total input {0,1,7,20,32,33,100} samples x {one wrote() call, 3-sample pieces}, then end of stream (28 encoders, one g1 step each; <=32 samples leaves the pcm lead-in to the end-of-stream LPC extrapolation)',
     'ENCS': 'subset of ENCT used as a concurrent body: 1/2 channels x (7 samples in one call, 32 samples in 3-sample pieces)',
+    'VLAP': 'vorbisfile on the right-silent stereo stream (several audio pages): {pcm_seek_lap, pcm_seek_page_lap, time_seek_lap, time_seek_page_lap, raw_seek_lap, crosslap} x handle state {fresh, mid-read, after raw seek into the last page (EOF, no lap data), read to end of stream, after a rejected seek}, fresh handle per combination (30 g1 steps L<state><variant>)',
+    'VLAQ': 'the same 30 lapped-seek combinations on the 2-link chain s1+left-silent stereo (lapping across links with different rate/channels)',
     'DECL': 'packet decoder on coupled stereo with a digitally silent LEFT channel (unused floor on one side of a coupled pair)',
     'DECR': 'packet decoder on coupled stereo with a digitally silent RIGHT channel, with synthesis_restart',
     'VFL': 'vorbisfile (ov_read_float) on the left-silent stream', 'VFR': 'vorbisfile (ov_read, pcm_seek_lap) on the right-silent stream',
 }
 FILLS = [0x00, 0xFF, 0x55, 0xAA, 0x7F]
+STACK_WORDS = ['00000000', 'ffffffff', '7f7f7f7f', '7fc00000', '3f000000']     # dead-stack patterns: zero, all ones, 0x7f bytes, NaN floats, 0.5f floats
 GRAN_NAME = {1: 'g1', 2: 'g1f', 3: 'g2'}
 
 
@@ -55,7 +58,8 @@ def streams(exe):
         if r.returncode != 0:
             raise RuntimeError('hard-panned stream encode failed: ' + r.stderr)
         pan.append(f'{nm}={pp}')
-    return ['s1=' + p1, 's2=' + p2, 'f0=' + f0, 'ch=' + ch] + pan
+    cq = vlib.write_file('c18_cq.ogg', open(p1, 'rb').read() + open(pan[0].split('=', 1)[1], 'rb').read())     # chain whose last link has several audio pages
+    return ['s1=' + p1, 's2=' + p2, 'f0=' + f0, 'ch=' + ch] + pan + ['cq=' + cq]
 
 
 def kv(line):
@@ -167,6 +171,8 @@ def plan_jobs(tier):
             jobs.append(Job(b, 1, 0, 2))
         for b in triples:
             jobs.append(Job(b, 1, 0, 2))
+        for b in [['VLAP', 'VLAQ'], ['VLAP', 'VFA']]:
+            jobs.append(Job(b, 1, 0, 1))
         for b in [['ENCA', 'ENCA'], ['DECA', 'DECB'], ['ENCB', 'VFA'], ['DECF', 'VFF'], ['DECB', 'DECB']]:
             jobs.append(Job(b, 3, 0, 1, chunk=24))
         for b in pairs:
@@ -236,10 +242,11 @@ def _run(chk, tier, t0, deadline, exe, texe, st):
     vg_futs = {b: bg.submit(run_valgrind, exe, st, b, side_budget) for b in ALL_BODIES} if have_vg else {}
 
     # ---------------- solo references + heap-fill reproducibility
-    cases = [f'solo {b}' for b in ALL_BODIES] + [f'fill {b} {p}' for b in ALL_BODIES for p in FILLS]
+    cases = [f'solo {b}' for b in ALL_BODIES] + [f'fill {b} {p}' for b in ALL_BODIES for p in FILLS] + [f'sfill {b} {w}' for b in ALL_BODIES for w in STACK_WORDS]
     res = vlib.run_cases(exe, cases, fixed, tag='c18a')
     solo = {}
     fill_ok = 0
+    sfill_ok = 0
     for c, r in zip(cases, res):
         cov['evaluations'] += 1
         r = r or 'NOOUTPUT'
@@ -251,9 +258,20 @@ def _run(chk, tier, t0, deadline, exe, texe, st):
                 continue
             solo[b] = d
             if d.get('det') != '1':
-                mach.append(f'solo reference of {b} is not deterministic')
+                chk.violation(f'solo_not_reproducible:{b}', f'solo body {b}: two runs of the identical call sequence on identical inputs (two freshly forked processes) gave different outputs: {r[:200]}', {'kind': 'solo', 'body': b})
             if d.get('fenv') != '-1':
                 chk.violation(f'fenv:{b}', f'solo body {b}: floating-point environment changed by an API call: {r}', {'kind': 'solo', 'body': b})
+        elif c.startswith('sfill'):
+            _, b, w = c.split()
+            if viol is not None:
+                vf = viol_fields(viol)
+                chk.violation(vf.get('key', 'stackfill'), vf['text'], {'kind': 'sfill', 'body': b, 'word': w})
+            elif stt == 'ok':
+                sfill_ok += 1
+            elif stt == 'MACHINERY':
+                mach.append(f'{c}: {r[:200]}')
+            else:
+                chk.violation(f'stackfill_died:{b}', f'solo body {b} with stack pre-fill 0x{w}: {r[:300]}', {'kind': 'sfill', 'body': b, 'word': w})
         else:
             _, b, p = c.split()
             if viol is not None:
@@ -263,6 +281,7 @@ def _run(chk, tier, t0, deadline, exe, texe, st):
                 fill_ok += 1
             else:
                 chk.violation(f'fill_died:{b}', f'solo body {b} under fill 0x{int(p):02x}: {r[:300]}', {'kind': 'fill', 'body': b, 'pattern': int(p)})
+    cov['stackfill'] = {'words': ['0x' + w for w in STACK_WORDS], 'bytes_prefilled_before_every_api_call': 262144, 'bodies': len(ALL_BODIES), 'identical_digests': sfill_ok, 'of': len(ALL_BODIES) * len(STACK_WORDS)}
     cov['fill'] = {'patterns': ['0x%02x' % p for p in FILLS], 'bodies': len(ALL_BODIES), 'identical_digests': fill_ok, 'of': len(ALL_BODIES) * len(FILLS)}
     cov['bodies'] = {b: {'what': BODY_DOC[b], 'g1_steps': int(d['steps']), 'api_calls': int(d['api']), 'allocator_calls_inside_api': int(d['allocs']), 'nonzero_outputs': int(d['nonzero']), 'padded_packets': int(d.get('padded', 0)), 'tiny_encode_packets': int(d.get('tinypk', 0))} for b, d in solo.items()}
 
@@ -488,10 +507,12 @@ def _run(chk, tier, t0, deadline, exe, texe, st):
         chk.guard(all(int(d['nonzero']) > 0 for d in solo.values()) and len(solo) == len(ALL_BODIES), 'every body produced non-zero output (DECF/VFF: the floor-0 curve was rendered, so floor0_map_lazy_init ran)')
         chk.guard(int(solo.get('ENCM', {}).get('padded', 0)) > 0, 'ENCM really emitted packets padded up to the hard minimum bitrate (%s packets end in >=16 zero bytes)' % solo.get('ENCM', {}).get('padded'))
         chk.guard(int(solo.get('ENCT', {}).get('tinypk', 0)) >= 26 and solo.get('ENCT', {}).get('tinyempty') == '0' and solo.get('ENCT', {}).get('steps') == '28', 'ENCT: all 28 very short encodes ran and every one with input produced audio packets (%s packets)' % solo.get('ENCT', {}).get('tinypk'))
+        chk.guard(all(int(solo.get(b, {}).get('lap2ok', 0)) >= 5 for b in ('VLAP', 'VLAQ')), 'VLAP/VLAQ: lapped seeks issued after a raw seek into the last page succeeded with the decoder kept and no lap data available (%s, %s of 6 variants)' % (solo.get('VLAP', {}).get('lap2ok'), solo.get('VLAQ', {}).get('lap2ok')))
         chk.guard(tsan_self, 'TSan engine reports a seeded race in the harness (self-test)')
         done_t = [t for t in tsan_info if t['rc'] is not None]
         chk.guard(len(done_t) >= 1 and all(t['max_concurrent'] >= 2 for t in done_t), f'every completed TSan pass had >=2 bodies running concurrently ({len(done_t)} of {len(tsan_cfgs)} passes completed)')
         chk.guard(fill_ok == len(ALL_BODIES) * len(FILLS), 'all fill-pattern runs completed')
+        chk.guard(sfill_ok == len(ALL_BODIES) * len(STACK_WORDS), 'all stack pre-fill runs completed (each run first proves with a probe that a fresh alloca really shows the pattern)')
         if tier == 'thorough':
             chk.guard(bool(vg_futs) and any(v == 0 for v in vg.values()), 'valgrind ran')
     for m in mach:
@@ -509,6 +530,10 @@ def replay(path):
         out = vlib.run_cases(exe, [f"one {r['bodies']} {r['gran']} {r['K']} {r['choices']}"], st, jobs=1)
         print(out[0])
         return 0 if (out[0] or '').startswith('ok') else 1
+    if k == 'sfill':
+        out = vlib.run_cases(exe, [f"sfill {r['body']} {r['word']}"], st, jobs=1)
+        print(out[0])
+        return 0 if (out[0] or '').startswith('ok') else 1
     if k == 'fill':
         out = vlib.run_cases(exe, [f"fill {r['body']} {r['pattern']}"], st, jobs=1)
         print(out[0])
@@ -516,7 +541,7 @@ def replay(path):
     if k == 'solo':
         out = vlib.run_cases(exe, [f"solo {r['body']}"], st, jobs=1)
         print(out[0])
-        return 0 if (out[0] or '').startswith('ok') and 'fenv=-1' in out[0] else 1
+        return 0 if (out[0] or '').startswith('ok') and 'fenv=-1' in out[0] and 'det=1' in out[0] else 1
     if k == 'tsan':
         vlib.build('tsan')
         texe = vlib.harness('tsan', 'c18_sched', extra='-DC18_TSAN', wrap=False)
